@@ -223,6 +223,14 @@ SPEC = [
          uses_dispatch=True, extra=[("permUb", "Nat → Num")], locals={"lb": L("bentry"), "ub": L("bentry")}),
     dict(name="task_transform_solution", src=("models.py", "Task.transform_solution"), params={"x": "coords"}, ret=("dict", "decoded"),
          selfr={"variables": ("variables", L("vd"))}, uses_dispatch=True, extra=[("name_of", "VarDecl → String")], locals={"solution": ("dict", "decoded")}),
+    dict(name="contmulti_correct", src=("models.py", "ContinuousMultiVariable.correct"), params={"value": L("raw")}, ret=L("coord"), uses_dispatch=True,
+         selfr={"lower_bounds": ("lower_bounds", L("num")), "upper_bounds": ("upper_bounds", L("num"))}, children=("contmulti_children", ["lower_bounds", "upper_bounds"])),
+    dict(name="multiobj_correct", src=("models.py", "MultiObjectiveVariable.correct"), params={"value": L("raw")}, ret=L("coord"), uses_dispatch=True,
+         selfr={"lower_bounds": ("lower_bounds", L("num")), "upper_bounds": ("upper_bounds", L("num"))}, children=("multiobj_children", ["lower_bounds", "upper_bounds"])),
+    dict(name="discmulti_correct", src=("models.py", "DiscreteMultiVariable.correct"), params={"value": L("raw")}, ret=L("coord"), uses_dispatch=True, poly=True,
+         selfr={"choices": ("choices", L(L("A")))}, children=("discmulti_children", "choices")),
+    dict(name="binary_correct", src=("models.py", "BinaryVariable.correct"), params={"value": L("raw")}, ret=L("coord"), uses_dispatch=True,
+         selfr={"n_vars": ("n_vars", "int")}, children=("binary_children", "n_vars")),
     dict(name="task_init", src=("models.py", "Task.__init__"), kwargs={"variables": L("vd"), "space_dimension": "int"}, params={}, ret=T(L("vd"), "int"),
          ret_fields=["variables", "space_dimension"], uses_dispatch=True, after_init_ok=["self._EPS = np.finfo(float).eps"]),
     dict(name="task_get_variables", src=("models.py", "Task.get_variables"), params={}, ret=L("var"), selfr={"variables": ("variables", L("vd"))}, uses_dispatch=True),
@@ -403,7 +411,7 @@ class Fn:
             sp = self.self_path(n)
             if sp == "_children" and self.spec.get("children"):
                 fn, field = self.spec["children"]
-                arg = self.selfr[field][0]
+                arg = " ".join(self.selfr[f_][0] for f_ in ([field] if isinstance(field, str) else field))
                 if fn in self.effectful:
                     self.need_eff(n)
                     return f"(← {fn} {arg})", L("var")
